@@ -131,7 +131,11 @@ func main() {
 			}
 			okAll := true
 			split := false
-			type ent struct{ keys [][2]string; val, valT, valF [2]string; cond bool }
+			type ent struct {
+				keys            [][2]string
+				val, valT, valF [2]string
+				cond            bool
+			}
 			var ents []ent
 			for _, cc := range sw.Body.List {
 				c := cc.(*ast.CaseClause)
